@@ -91,7 +91,8 @@ package parser
 //@ func (*Parser).parseNode
 //@ trusted except C03.parser.depth.restore
 //@ props C03
-//@ modcomps H_ E_ MD_ MV_ G_ C_
+// (as for parseExpression: the node slices of callers that are suspended while an element is parsed are not touched)
+//@ modcomps H_ E_ MD_ MV_ G_ C_ -E_ast_Node -E_ast_Expression
 //@ ensures result == nil || ref(result) != nil
 //@ ensures old(PInv(p)) ==> PInv(p)
 //@ ensures old(p.err) != nil ==> p.err != nil
@@ -219,22 +220,26 @@ package parser
 //@ requires PInv(p)
 //@ assume[src.nul] len(p.l.characters) > 0 ==> p.l.characters[0] != 0 && (p.l.prevToken.Type == "EOF" ==> p.l.position >= 1)
 //@ callpre[C20.layout.newline] parseExpression: p.err != nil || p.curToken.Type != token.NEWLINE
-//@ invariant 1: PInv(p)
-//@ invariant 2: PInv(p)
-//@ invariant 3: PInv(p)
-//@ invariant 4: PInv(p)
+//@ invariant 1: PInv(p) && len(list) == 0
+//@ invariant 2: PInv(p) && fresh(list) && forall(k, 0, len(list), list[k] != nil && ref(list[k]) != nil)
+//@ invariant 3: PInv(p) && fresh(list) && forall(k, 0, len(list), list[k] != nil && ref(list[k]) != nil)
+//@ invariant 4: PInv(p) && fresh(list) && forall(k, 0, len(list), list[k] != nil && ref(list[k]) != nil)
 //@ ensures[C20.parser.inv] PInv(p)
+// C03 (KF-80): no element of the list is nil - every element is tested, not only the first
+//@ ensures[C03.list.nonnil] forall(k, 0, len(result), result[k] != nil && ref(result[k]) != nil)
 
 //@ func (*Parser).parseNodeList
 //@ props C20 C03
 //@ requires PInv(p)
 //@ assume[src.nul] len(p.l.characters) > 0 ==> p.l.characters[0] != 0 && (p.l.prevToken.Type == "EOF" ==> p.l.position >= 1)
 //@ callpre[C20.layout.newline] parseNode: p.err != nil || p.curToken.Type != token.NEWLINE
-//@ invariant 1: PInv(p)
-//@ invariant 2: PInv(p)
-//@ invariant 3: PInv(p)
-//@ invariant 4: PInv(p)
+//@ invariant 1: PInv(p) && len(list) == 0
+//@ invariant 2: PInv(p) && fresh(list) && forall(k, 0, len(list), list[k] != nil && ref(list[k]) != nil)
+//@ invariant 3: PInv(p) && fresh(list) && forall(k, 0, len(list), list[k] != nil && ref(list[k]) != nil)
+//@ invariant 4: PInv(p) && fresh(list) && forall(k, 0, len(list), list[k] != nil && ref(list[k]) != nil)
 //@ ensures[C20.parser.inv] PInv(p)
+// C03 (KF-80): no element of the list is nil - every element is tested, not only the first
+//@ ensures[C03.list.nonnil] forall(k, 0, len(result), result[k] != nil && ref(result[k]) != nil)
 
 
 // ---- C03: the parser hands the compiler no node with a missing (nil) required child ---------------------------------
@@ -294,3 +299,16 @@ package parser
 //@ nocontract parseString
 //@ requires p != nil
 //@ ensures[C14.import.validated] result != nil ==> typeof(result) == *ast.Import && ref(result) != nil && result.(*ast.Import).path != nil && importPathOK(result.(*ast.Import).path.value)
+
+// ---- C03: no nil element in an expression / node list; an empty grouped expression is an error (KF-80) -----------
+// "(" directly followed by a newline made parseGroupedExpr answer nil WITHOUT an error, and the list parsers tested only
+// their first element: `[1, (\n))]` reached the compiler with a nil list element and panicked the host. These are
+// the remaining facts behind the compiler-side assumption wf.nonnil for lists, calls and grouped operands.
+//@ func (*Parser).parseGroupedExpr
+//@ props C03
+//@ trusted except C03.grouped.err
+//@ modcomps H_ E_ MD_ MV_ G_ C_
+//@ assume[recv.nonnil] p != nil && PInv(p)
+//@ assume[src.nul] len(p.l.characters) > 0 ==> p.l.characters[0] != 0 && (p.l.prevToken.Type == "EOF" ==> p.l.position >= 1)
+//@ ensures[C03.grouped.err] result == nil ==> p.err != nil
+//@ ensures result == nil || ref(result) != nil
